@@ -15,7 +15,7 @@
    Specification-level definitions used in the statements and not part of the model are in
    Proofs/RtmpPacketTx.v (request_like, is_control, is_response_name, cmd_name/cmd_tid, parse_spec,
    the abstract map amap / a_step / out_matches / refines, events ev / wf_ev / c_run / a_run,
-   skips, traffic_msg, type_hit), Proofs/RtmpPacketWf.v (clean_receiver) and
+   skips, traffic_msg, type_hit), Proofs/RtmpPacketWf.v (decode_seq, until_fail) and
    Proofs/RtmpPacketGen.v (parse_tbl, decode_tbl: interpreters of the generated tables). *)
 From Coq Require Import String.
 From Verif Require Import Lib.Base Lib.Sx Lib.GoSem Model.Amf0 Model.RtmpPacket.
@@ -83,20 +83,47 @@ Proof.
 Qed.
 
 (* ---- arbitrary input: what decodes is a well-formed packet and a fixed point ----
-   For EVERY byte string (bytes < 256) that a packet unmarshaler accepts, on a receiver whose
-   untouched fields are the constructor's ([clean_receiver]: no Args, ExtraData 0), the result is
-   a well-formed packet of the receiver's type, its Size() is at most the input length (trailing
-   bytes are ignored, non-canonical booleans shrink nothing), and its own bytes decode to it
-   again.  The same for whatever DecodeMessage returns, any table, any message type. *)
+   For EVERY byte string (bytes < 256) that a packet unmarshaler accepts, on ANY receiver of that
+   packet type, the result is a well-formed packet of the receiver's type, its Size() is at most
+   the input length (trailing bytes are ignored, non-canonical booleans shrink nothing), and its
+   own bytes decode to it again.  The same for whatever DecodeMessage returns, any table, any
+   message type. *)
 Theorem c03_decoded_wellformed r data p :
-  clean_receiver r = true -> wf_bytes data -> unmarshal r data = Ok p ->
+  wf_bytes data -> unmarshal r data = Ok p ->
   wf_pkt p = true /\ kind_of p = kind_of r /\ psize p <= lenN data.
 Proof. exact (unmarshal_decoded r data p). Qed.
 
 Theorem c03_decoded_fixed_point r data p :
-  clean_receiver r = true -> wf_bytes data -> unmarshal r data = Ok p ->
+  wf_bytes data -> unmarshal r data = Ok p ->
   unmarshal r (marshal p) = Ok p /\ psize p <= lenN data.
 Proof. exact (unmarshal_fixed_point r data p). Qed.
+
+(* ---- reused receivers: UnmarshalBinary overwrites ----
+   [unmarshal old data] is UnmarshalBinary(data) on a packet object that currently holds [old]
+   (a constructed value or the result of an earlier decode).  For every packet type the result
+   -- value or error -- is independent of [old]: only the receiver's type matters (rtmp.go
+   e5abd50 clears Args / ExtraData, 9789218 the optional command object, amf0 8324535 replaces
+   an object's properties; before e5abd50 a reused call/connect packet kept the Args and a
+   reused user control the ExtraData of the previous message).  Consequently k payloads decoded
+   one after the other into ONE object give, step by step, exactly what a fresh packet gives for
+   each payload, up to the first failure. *)
+Theorem c03_unmarshal_overwrites old old' data :
+  kind_of old = kind_of old' -> unmarshal_into old data = unmarshal_into old' data.
+Proof. exact (unmarshal_overwrites old old' data). Qed.
+
+Theorem c03_reuse_is_fresh r0 ds r : Forall wf_bytes ds -> kind_of r = kind_of r0 ->
+  decode_seq r ds = until_fail (map (unmarshal r0) ds).
+Proof. intros H Hk. exact (reuse_is_fresh r0 ds H r Hk). Qed.
+
+(* the former defect, as a regression: a call that held arguments decodes a message without
+   arguments to a packet without arguments, of Size() = the 16 input bytes *)
+Example c03_reuse_regression :
+  let held := PCall cCloseStream 0 (Some ANull) (Some (ANum f_one)) in
+  let data := enc (AStr [102; 111; 111]) ++ enc (ANum f_two) ++ enc ANull in
+  unmarshal_into held data = Ok (PCall [102; 111; 111] f_two (Some ANull) None) /\
+  lenN data = 16 /\
+  unmarshal_into (PUserControl 3 1 9) (marshal (PUserControl 0 5 0)) = Ok (PUserControl 0 5 0).
+Proof. vm_compute. repeat split. Qed.
 
 Theorem c03_decode_message_decoded t mt payload p t' :
   wf_bytes payload -> decode_message t mt payload = (Ok p, t') ->
@@ -510,6 +537,8 @@ Print Assumptions c03_control_values.
 Print Assumptions c03_decoded_wellformed.
 Print Assumptions c03_decoded_fixed_point.
 Print Assumptions c03_decode_message_decoded.
+Print Assumptions c03_unmarshal_overwrites.
+Print Assumptions c03_reuse_is_fresh.
 Print Assumptions c03_dispatch_request.
 Print Assumptions c03_dispatch_control.
 Print Assumptions c03_dispatch_connect_response.
